@@ -83,6 +83,17 @@ def r1(ck, prog, run):
     by = {}
     for x in forces:
         by.setdefault(id(x.func), []).append(x)
+    # forces found inside nested functions (the wrapper built by signal_transform, local helpers) belong to their
+    # enclosing function's obligations
+    known_ids = {id(f) for f in funcs}
+    for x in forces:
+        if id(x.func) not in known_ids:
+            outer = next((f for f in funcs if f.module == x.func.module and x.func.qualname.startswith(f.qualname + ".<locals>")), None)
+            if outer is not None:
+                by.setdefault(id(outer), []).append(x)
+            else:
+                run.ob("R1", x.func.where, norm(x.node)[:160], f"forcing sink: {x.how} [{x.expr}]", x.sanctioned is not None, nontrivial=True,
+                       found=None if x.sanctioned else "forces computation of a possibly Dask-backed value", note=x.sanctioned)
     for f in funcs:
         xs = by.get(id(f), [])
         if not xs:
